@@ -68,7 +68,8 @@ fn body(case: &Case) {
                 Task::Instant => {}
                 Task::Long(k) => { for _ in 0..k { shuttle::thread::yield_now(); } }
                 Task::Rendezvous(_) => { barrier.unwrap().wait(); }
-                Task::Panic => { f[i].fetch_add(1, Ordering::SeqCst); let _ = tx.send(i); panic!("scripted job failure"); }
+                // the three payload types a panic can carry: &'static str (literal message), String (formatted message), anything else (panic_any)
+                Task::Panic => { f[i].fetch_add(1, Ordering::SeqCst); let _ = tx.send(i); match i % 3 { 0 => panic!("scripted job failure"), 1 => panic!("scripted job failure in task {}", i), _ => std::panic::panic_any(i) } }
             }
             f[i].fetch_add(1, Ordering::SeqCst);
             let _ = tx.send(i);
